@@ -258,13 +258,13 @@ var specs = []CheckSpec{
 	{
 		ID: "C20", Pkg: "goproxytest", UsesVFS: true,
 		Harnesses: []HarnessSpec{
-			{Fn: "VerifC20Serve", Quick: map[string]int{"N": 2}, Thorough: map[string]int{"N": 5}, Witness: []string{"list-200", "list-404", "file-200", "file-404", "zip-200", "directory-layout"}},
+			{Fn: "VerifC20Serve", Quick: map[string]int{"N": 2}, Thorough: map[string]int{"N": 5}, Witness: []string{"list-200", "list-404", "file-200", "file-404", "zip-200", "directory-layout", "another-zip-built-in-between"}},
 		},
 		Bounds: map[string]string{
 			"quick":    "module directories holding up to 2 of 10 menu entries (three layouts: .txtar, .txt, directory; case-escaped path; /v2 path; pre-release versions ending in digits and in letters, pseudo, +incompatible and path-mismatched versions) plus an unrelated file, one symbolic content byte per stored module; one request: list / .info / .mod / .zip / unknown extension / version not stored, for each menu module or an unknown module",
 			"thorough": "up to 5 stored entries",
 		},
-		Stubs:       []string{"net/http.NotFound and http.Error record the status", "archive/zip.NewWriter/Create/Close replaced by a recorder of (name, content) entries: the zip container encoding is not examined", "par.Cache.Do invokes its function directly (once-per-key under concurrency is C10)", "file system model as C05 (os.ReadDir, os.ReadFile, filepath.WalkDir through it)"},
+		Stubs:       []string{"net/http.NotFound and http.Error record the status", "archive/zip.NewWriter/Create/Close replaced by a recorder of (name, content) entries: the zip container encoding is not examined", "par.Cache.Do runs its function once per (cache, key) and keeps the result (sequential model of what C10 establishes)", "file system model as C05 (os.ReadDir, os.ReadFile, filepath.WalkDir through it)"},
 		Assumptions: append([]string{"PART CLAIMED: module discovery from file names, routing and unescaping, list = exactly the valid non-pseudo stored versions, .info/.mod byte-identical to the stored files, zip = exactly the stored files whose names do not start with a dot under path@version/ with identical contents, 404 for everything not stored. NOT claimed: the HTTP transport, the zip encoding, commit-hash resolution (all-hex versions; needs encoding/json), responses under concurrent requests"}, commonAssumptions...),
 		Outside:     []string{"concurrent requests (the caches are par.Cache: C10)", "all-hex version requests", "module paths and versions outside the menu; file contents longer than the templates"},
 	},
